@@ -611,7 +611,8 @@ impl Locale {
                 continue;
             };
             let (_, _, rule_type, other) = plurals.remove(other_pos);
-            let key = Key::new(&base_key).unwrap_at("merge_plurals_1");
+            // `in_one` and `in_other` are valid keys, the plural `in` they declare is not.
+            let key = Key::try_new(&base_key)?;
             key_path.push_key(key);
             if !cfg!(feature = "plurals") && !SKIP_ICU_CFG.get() {
                 return Err(Error::DisabledPlurals {
